@@ -101,7 +101,7 @@ func (p Polygon) Len() int {
 func (p Polygon) Points() func() Point {
 	var i, j int
 	return func() Point {
-		if i == len(p[j]) {
+		for i == len(p[j]) {
 			j++
 			i = 0
 		}
